@@ -35,11 +35,13 @@ CONSTANTS Principals,      \* e.g. {"A", "B"}
           BoomCodes,       \* grammatical codes whose parse task panics
           Strategies,
           MaxReq,          \* bound on the number of requests
+          TempNames,       \* account names the service generates for anonymous adds ({} in the exhaustive configurations)
+          GenPNames,       \* problem names the service generates for unnamed adds
           FilterOnOwner,   \* FALSE: get_adf_problem filters on the name only (mutation self-test)
           FixedF8          \* TRUE: the continuation deregisters a panicked task (repaired), FALSE: as shipped
 
 AllCodes == Codes \cup BadCodes \cup BoomCodes
-Pw(p) == <<"pw", p>>                       \* each principal knows only its own password
+Pw(p) == "pw-" \o p                    \* each principal knows only its own password (principals are strings in the exhaustive configurations)
 NoUser == "-"
 
 VARIABLES users,     \* account name -> [pw, owner]
@@ -53,7 +55,8 @@ VARIABLES users,     \* account name -> [pw, owner]
 
 vars == <<users, probs, running, cookie, req, tasks, nextId, nreq, foreignRead, foreignEffect, wrongResult>>
 
-Idle == [op |-> "idle"]
+Idle == [op |-> "idle", status |-> 0]
+NeedsLogin == {"logout", "info", "update", "delacct", "solve", "get", "list", "delprob"}
 NoRes == [s \in Strategies |-> "None"]
 
 Init == /\ users = [n \in {} |-> 0] /\ probs = {} /\ running = {} /\ cookie = [p \in Principals |-> NoUser]
@@ -62,7 +65,8 @@ Init == /\ users = [n \in {} |-> 0] /\ probs = {} /\ running = {} /\ cookie = [p
 
 Exists(n) == n \in DOMAIN users
 Find(pn, u) == { d \in probs : d.name = pn /\ d.user = u }
-Finish(p) == req' = [req EXCEPT ![p] = Idle]
+\* the handler answers with HTTP status st
+Fin(p, st) == req' = [req EXCEPT ![p] = [op |-> "idle", status |-> st]]
 
 \* ---- causes (ghost)
 \* an account name that was vacated by a rename whose update_many is still pending
@@ -74,17 +78,17 @@ Cause(p, d) == IF d.owner = p THEN {} ELSE IF d.taint # "" THEN {d.taint}
 ReadCause(p, d) == Cause(p, d)
 
 (******************************* requests **********************************)
-Start(p, r) == /\ req[p] = Idle /\ nreq < MaxReq /\ nreq' = nreq + 1
+Start(p, r) == /\ req[p].op = "idle" /\ nreq < MaxReq /\ nreq' = nreq + 1
                /\ req' = [req EXCEPT ![p] = r @@ [pc |-> 1, me |-> cookie[p]]]
                /\ UNCHANGED <<users, probs, running, cookie, tasks, nextId, foreignRead, foreignEffect, wrongResult>>
 
 NewRequest(p) ==
-  \/ \E n \in Accounts : Start(p, [op |-> "register", n |-> n])
-  \/ \E n \in Accounts : Start(p, [op |-> "login", n |-> n])
-  \/ cookie[p] # NoUser /\ \E n \in Accounts : Start(p, [op |-> "update", n |-> n])
+  \/ \E n \in Accounts : Start(p, [op |-> "register", n |-> n, pw |-> Pw(p)])
+  \/ \E n \in Accounts : Start(p, [op |-> "login", n |-> n, pw |-> Pw(p)])
+  \/ cookie[p] # NoUser /\ \E n \in Accounts : Start(p, [op |-> "update", n |-> n, pw |-> Pw(p)])
   \/ cookie[p] # NoUser /\ Start(p, [op |-> "delacct"])
   \/ cookie[p] # NoUser /\ Start(p, [op |-> "logout"])
-  \/ cookie[p] # NoUser /\ \E pn \in PNames, c \in AllCodes : Start(p, [op |-> "add", pn |-> pn, code |-> c])
+  \/ (cookie[p] # NoUser \/ TempNames # {}) /\ \E pn \in PNames, c \in AllCodes : Start(p, [op |-> "add", pn |-> pn, code |-> c])
   \/ cookie[p] # NoUser /\ \E pn \in PNames, s \in Strategies : Start(p, [op |-> "solve", pn |-> pn, s |-> s])
   \/ cookie[p] # NoUser /\ \E pn \in PNames : Start(p, [op |-> "get", pn |-> pn])
   \/ cookie[p] # NoUser /\ Start(p, [op |-> "list"])
@@ -97,37 +101,46 @@ Step(p) ==
   LET r == req[p] IN
   /\ r.op # "idle"
   /\ nreq' = nreq
-  /\ CASE r.op = "register" /\ r.pc = 1 ->                       \* find user
-            /\ IF Exists(r.n) THEN Finish(p) ELSE req' = [req EXCEPT ![p].pc = 2]
+  /\ CASE r.op \in NeedsLogin /\ r.me = NoUser ->                \* no identity: 401 without touching the database
+            /\ Fin(p, 401)
+            /\ Unch(<<users, probs, running, cookie, tasks, nextId, foreignRead, foreignEffect, wrongResult>>)
+       [] r.op = "register" /\ r.pc = 1 ->                       \* find user
+            /\ IF Exists(r.n) THEN Fin(p, 409) ELSE req' = [req EXCEPT ![p].pc = 2]
             /\ Unch(<<users, probs, running, cookie, tasks, nextId, foreignRead, foreignEffect, wrongResult>>)
        [] r.op = "register" /\ r.pc = 2 ->                       \* insert user (unique index)
-            /\ users' = IF Exists(r.n) THEN users ELSE (r.n :> [pw |-> Pw(p), owner |-> p]) @@ users
-            /\ Finish(p)
+            /\ users' = IF Exists(r.n) THEN users ELSE (r.n :> [pw |-> r.pw, owner |-> p]) @@ users
+            /\ Fin(p, IF Exists(r.n) THEN 500 ELSE 200)
             /\ Unch(<<probs, running, cookie, tasks, nextId, foreignRead, foreignEffect, wrongResult>>)
-       [] r.op = "login" ->                                      \* find user, verify password
-            /\ cookie' = IF Exists(r.n) /\ users[r.n].pw = Pw(p) THEN [cookie EXCEPT ![p] = r.n] ELSE cookie
-            /\ Finish(p)
+       [] r.op = "login" ->                                      \* find user, verify password (temporary accounts cannot log in)
+            /\ LET good == Exists(r.n) /\ users[r.n].pw # "TEMP" /\ users[r.n].pw = r.pw IN
+               /\ cookie' = IF good THEN [cookie EXCEPT ![p] = r.n] ELSE cookie
+               /\ Fin(p, IF ~Exists(r.n) THEN 404 ELSE IF good THEN 200 ELSE 400)
             /\ Unch(<<users, probs, running, tasks, nextId, foreignRead, foreignEffect, wrongResult>>)
-       [] r.op = "logout" ->
-            /\ cookie' = IF Exists(r.me) THEN [cookie EXCEPT ![p] = NoUser] ELSE cookie
-            /\ Finish(p)
+       [] r.op = "logout" ->                                     \* find user; temporary users are not logged out
+            /\ LET good == Exists(r.me) /\ users[r.me].pw # "TEMP" IN
+               /\ cookie' = IF good THEN [cookie EXCEPT ![p] = NoUser] ELSE cookie
+               /\ Fin(p, IF ~Exists(r.me) THEN 404 ELSE IF good THEN 200 ELSE 400)
             /\ Unch(<<users, probs, running, tasks, nextId, foreignRead, foreignEffect, wrongResult>>)
-       [] r.op = "update" /\ r.pc = 1 ->                         \* find new name
-            /\ IF r.n # r.me /\ Exists(r.n) THEN Finish(p) ELSE req' = [req EXCEPT ![p].pc = 2]
+       [] r.op = "info" ->                                       \* find user; a vanished account ends the session
+            /\ cookie' = IF Exists(r.me) THEN cookie ELSE [cookie EXCEPT ![p] = NoUser]
+            /\ Fin(p, IF Exists(r.me) THEN 200 ELSE 404)
+            /\ Unch(<<users, probs, running, tasks, nextId, foreignRead, foreignEffect, wrongResult>>)
+       [] r.op = "update" /\ r.pc = 1 ->                         \* find new name (only asked when the name changes)
+            /\ IF r.n # r.me /\ Exists(r.n) THEN Fin(p, 409) ELSE req' = [req EXCEPT ![p].pc = 2]
             /\ Unch(<<users, probs, running, cookie, tasks, nextId, foreignRead, foreignEffect, wrongResult>>)
        [] r.op = "update" /\ r.pc = 2 ->                         \* replace_one users {username: me}
             /\ IF Exists(r.me) /\ (r.n = r.me \/ ~Exists(r.n))
-               THEN /\ users' = (r.n :> [pw |-> Pw(p), owner |-> users[r.me].owner]) @@ [m \in DOMAIN users \ {r.me} |-> users[m]]
+               THEN /\ users' = (r.n :> [pw |-> r.pw, owner |-> users[r.me].owner]) @@ [m \in DOMAIN users \ {r.me} |-> users[m]]
                     /\ foreignEffect' = foreignEffect \cup (IF users[r.me].owner # p THEN {"unexplained"} ELSE {})
                     /\ cookie' = [cookie EXCEPT ![p] = r.n]
                     /\ req' = [req EXCEPT ![p].pc = 3]
-               ELSE /\ Finish(p) /\ Unch(<<users, cookie, foreignEffect>>)
+               ELSE /\ Fin(p, 500) /\ Unch(<<users, cookie, foreignEffect>>)
             /\ Unch(<<probs, running, tasks, nextId, foreignRead, wrongResult>>)
        [] r.op = "update" /\ r.pc = 3 ->                         \* update_many problems me -> n
             /\ probs' = { IF d.user = r.me THEN [d EXCEPT !.user = r.n, !.taint = IF d.owner # p /\ @ = "" THEN "rename-window" ELSE @] ELSE d : d \in probs }
             \* documents of another person created under the vacated name meanwhile are taken along
             /\ foreignEffect' = foreignEffect \cup (IF \E d \in probs : d.user = r.me /\ d.owner # p THEN {"rename-window"} ELSE {})
-            /\ Finish(p)
+            /\ Fin(p, 200)
             /\ Unch(<<users, running, cookie, tasks, nextId, foreignRead, wrongResult>>)
        [] r.op = "delacct" /\ r.pc = 1 ->                        \* delete_many problems
             /\ probs' = { d \in probs : d.user # r.me }
@@ -138,50 +151,60 @@ Step(p) ==
             /\ users' = [m \in DOMAIN users \ {r.me} |-> users[m]]
             /\ foreignEffect' = foreignEffect \cup (IF Exists(r.me) /\ users[r.me].owner # p THEN {"unexplained"} ELSE {})
             /\ cookie' = IF Exists(r.me) THEN [cookie EXCEPT ![p] = NoUser] ELSE cookie
-            /\ Finish(p)
+            /\ Fin(p, IF Exists(r.me) THEN 200 ELSE 500)
             /\ Unch(<<probs, running, tasks, nextId, foreignRead, wrongResult>>)
-       [] r.op = "add" /\ r.pc = 1 ->                            \* find problem
-            /\ IF Find(r.pn, r.me) # {} THEN Finish(p) ELSE req' = [req EXCEPT ![p].pc = 2]
+       [] r.op = "add" /\ r.me = NoUser ->                       \* anonymous: find a free generated name, insert a temporary user, log it in
+            /\ IF TempNames \ DOMAIN users = {} THEN Fin(p, 500) /\ Unch(<<users, cookie>>)
+               ELSE LET t == CHOOSE x \in TempNames \ DOMAIN users : TRUE IN
+                    /\ users' = (t :> [pw |-> "TEMP", owner |-> p]) @@ users
+                    /\ cookie' = [cookie EXCEPT ![p] = t]
+                    /\ req' = [req EXCEPT ![p].me = t]
+            /\ Unch(<<probs, running, tasks, nextId, foreignRead, foreignEffect, wrongResult>>)
+       [] r.op = "add" /\ r.pc = 1 ->                            \* find problem (an unnamed problem gets a free generated name)
+            /\ IF r.pn = ""
+               THEN LET free == { g \in GenPNames : Find(g, r.me) = {} } IN
+                    IF free = {} THEN Fin(p, 500) ELSE req' = [req EXCEPT ![p].pc = 2, ![p].pn = CHOOSE g \in free : TRUE]
+               ELSE IF Find(r.pn, r.me) # {} THEN Fin(p, 409) ELSE req' = [req EXCEPT ![p].pc = 2]
             /\ Unch(<<users, probs, running, cookie, tasks, nextId, foreignRead, foreignEffect, wrongResult>>)
        [] r.op = "add" /\ r.pc = 2 ->                            \* insert problem, spawn the parse task
             /\ probs' = probs \cup {[id |-> nextId, name |-> r.pn, user |-> r.me, code |-> r.code, adfOf |-> "None", res |-> NoRes, owner |-> p, taint |-> ""]}
             /\ tasks' = tasks \cup {[kind |-> "Parse", name |-> r.pn, user |-> r.me, code |-> r.code, s |-> "Parse", pc |-> 1,
                                      owner |-> p, doc |-> nextId, out |-> "None", via |-> ""]}
             /\ nextId' = nextId + 1
-            /\ Finish(p)
+            /\ Fin(p, 200)
             /\ Unch(<<users, running, cookie, foreignRead, foreignEffect, wrongResult>>)
        [] r.op = "solve" /\ r.pc = 1 ->                          \* find problem; needs a parsed adf
             /\ LET ds == Find(r.pn, r.me) IN
-               IF ds = {} THEN Finish(p) /\ Unch(<<foreignRead>>)
+               IF ds = {} THEN Fin(p, 404) /\ Unch(<<foreignRead>>)
                ELSE LET d == CHOOSE x \in ds : TRUE IN
                     /\ foreignRead' = foreignRead \cup ReadCause(p, d)
-                    /\ IF d.adfOf \in {"None", "Error"} THEN Finish(p)
+                    /\ IF d.adfOf \in {"None", "Error"} THEN Fin(p, 400)
                        ELSE req' = [req EXCEPT ![p] = [@ EXCEPT !.pc = 2] @@ [snap |-> d.adfOf, solved |-> d.res[r.s] \notin {"None", "Error"}, doc |-> d.id,
                                                                                    rc |-> IF ReadCause(p, d) = {} THEN "" ELSE CHOOSE c \in ReadCause(p, d) : TRUE]]
             /\ Unch(<<users, probs, running, cookie, tasks, nextId, foreignEffect, wrongResult>>)
        [] r.op = "solve" /\ r.pc = 2 ->                          \* has_been_solved / running? else spawn
             /\ IF r.solved \/ [user |-> r.me, name |-> r.pn, task |-> r.s] \in running
-               THEN Unch(<<tasks>>)
-               ELSE tasks' = tasks \cup {[kind |-> "Solve", name |-> r.pn, user |-> r.me, code |-> r.snap, s |-> r.s, pc |-> 1,
-                                          owner |-> p, doc |-> r.doc, out |-> "None", via |-> r.rc]}
-            /\ Finish(p)
+               THEN Unch(<<tasks>>) /\ Fin(p, 409)
+               ELSE /\ tasks' = tasks \cup {[kind |-> "Solve", name |-> r.pn, user |-> r.me, code |-> r.snap, s |-> r.s, pc |-> 1,
+                                             owner |-> p, doc |-> r.doc, out |-> "None", via |-> r.rc]}
+                    /\ Fin(p, 200)
             /\ Unch(<<users, probs, running, cookie, nextId, foreignRead, foreignEffect, wrongResult>>)
        [] r.op = "get" ->                                        \* find_one {name, username}
             /\ LET ds == IF FilterOnOwner THEN Find(r.pn, r.me) ELSE { d \in probs : d.name = r.pn } IN
-               foreignRead' = foreignRead \cup UNION { ReadCause(p, d) : d \in ds }
-            /\ Finish(p)
+               /\ foreignRead' = foreignRead \cup UNION { ReadCause(p, d) : d \in ds }
+               /\ Fin(p, IF ds = {} THEN 404 ELSE 200)
             /\ Unch(<<users, probs, running, cookie, tasks, nextId, foreignEffect, wrongResult>>)
        [] r.op = "list" ->                                       \* find {username}
             /\ foreignRead' = foreignRead \cup UNION { ReadCause(p, d) : d \in { x \in probs : x.user = r.me } }
-            /\ Finish(p)
+            /\ Fin(p, 200)
             /\ Unch(<<users, probs, running, cookie, tasks, nextId, foreignEffect, wrongResult>>)
        [] r.op = "delprob" ->                                    \* delete_one {name, username}
             /\ LET ds == Find(r.pn, r.me) IN
-               IF ds = {} THEN Unch(<<probs, foreignEffect>>)
+               IF ds = {} THEN Unch(<<probs, foreignEffect>>) /\ Fin(p, 500)
                ELSE LET d == CHOOSE x \in ds : TRUE IN
                     /\ probs' = probs \ {d}
                     /\ foreignEffect' = foreignEffect \cup Cause(p, d)
-            /\ Finish(p)
+                    /\ Fin(p, 200)
             /\ Unch(<<users, running, cookie, tasks, nextId, foreignRead, wrongResult>>)
 
 (***************************** background tasks *****************************)
